@@ -63,6 +63,9 @@ type dbIn struct {
 	Dir   string   `json:"dir"`
 	Cases []dbCase `json:"cases"`
 	Gates bool     `json:"gates"` // seeded delays at the scheduling gates
+	// how the database directory is spelled when it is handed to NewSimpleDB: "" (clean) | "slash" (trailing /) | "dslash" (// inside) |
+	// "dot" (/./ inside) | "glob" (the directory NAME contains glob metacharacters)
+	DirStyle string `json:"dirstyle"`
 	Seed  int64    `json:"seed"`
 }
 
@@ -283,13 +286,25 @@ func runDB(args []string) error {
 	}
 
 	for ci, c := range in.Cases {
-		dir := filepath.Join(in.Dir, fmt.Sprintf("case%d", ci))
+		name := fmt.Sprintf("case%d", ci)
+		if in.DirStyle == "glob" {
+			name = fmt.Sprintf("case[%d]*?", ci)
+		}
+		dir := filepath.Join(in.Dir, name)
 		if err := os.MkdirAll(dir, 0o700); err != nil {
 			return err
 		}
 		rec.emit(M{"t": "reset", "case": ci})
 		var db *simpledb.DB
-		x := &dbExec{rec: rec, keys: keys, dir: dir}
+		x := &dbExec{rec: rec, keys: keys, dir: dir, openDir: dir}
+		switch in.DirStyle {
+		case "slash":
+			x.openDir = dir + "/"
+		case "dslash":
+			x.openDir = in.Dir + "//" + name
+		case "dot":
+			x.openDir = in.Dir + "/./" + name + "/."
+		}
 		for _, s := range c.Steps {
 			db, err = x.step(db, s, 0)
 			if err != nil {
@@ -310,7 +325,8 @@ func runDB(args []string) error {
 type dbExec struct {
 	rec     *dbRecorder
 	keys    [][]byte
-	dir     string
+	dir     string // canonical path (observation, copies)
+	openDir string // the same directory as it is spelled for NewSimpleDB
 	mayFail bool // the current session's options refuse every mutation (direct-I/O WAL without the asynchronous mode)
 }
 
@@ -320,7 +336,7 @@ func (x *dbExec) step(db *simpledb.DB, s dbStep, g int) (*simpledb.DB, error) {
 	case "open":
 		if s.ExactOf > 0 {
 			// exact-equality probe of the selection rule: read the table sizes with a throw-away handle first
-			if probe, err := simpledb.NewSimpleDB(x.dir, simpledb.DisableCompactions()); err == nil {
+			if probe, err := simpledb.NewSimpleDB(x.openDir, simpledb.DisableCompactions()); err == nil {
 				atomic.StoreInt32(&rec.opening, 1)
 				if probe.Open() == nil {
 					ts := probe.VerifTables()
@@ -356,7 +372,7 @@ func (x *dbExec) step(db *simpledb.DB, s dbStep, g int) (*simpledb.DB, error) {
 		} else {
 			opts = append(opts, simpledb.DisableCompactions())
 		}
-		ndb, err := simpledb.NewSimpleDB(x.dir, opts...)
+		ndb, err := simpledb.NewSimpleDB(x.openDir, opts...)
 		if err != nil {
 			return nil, err
 		}
@@ -632,6 +648,11 @@ func (x *dbExec) tornReopen(db *simpledb.DB, s dbStep) {
 			cut = os.Truncate(ws[len(ws)-1], st.Size()-3) == nil
 		}
 	}
+	// ... and the debris of a compaction that was killed right after creating its success marker: an EMPTY marker file
+	cdir := filepath.Join(img, simpledb.SSTableCompactionPathPrefix+"424242")
+	if os.MkdirAll(cdir, 0o700) == nil {
+		os.WriteFile(filepath.Join(cdir, simpledb.CompactionFinishedSuccessfulFileName), nil, 0o600)
+	}
 	atomic.StoreInt32(&x.rec.muted, 1)
 	atomic.StoreInt32(&x.rec.opening, 1)
 	d2, err := simpledb.NewSimpleDB(img, simpledb.DisableCompactions())
@@ -880,6 +901,33 @@ func (x *dbExec) window(db *simpledb.DB, s dbStep) (closed bool) {
 		ctl.release("flush.written")
 		<-r2
 		<-g
+	case "open-while-compacting":
+		// C17: Open on a handle that is already open must be refused WITHOUT any effect - also while a compaction sits between its merge
+		// and its reflect (the folder of the running compaction is not debris of a crash)
+		for t := 0; t < 2; t++ {
+			x.step(db, dbStep{Op: "put", K: t, V: fmt.Sprintf("w5%c", 'a'+t), Pad: 5}, 0)
+			x.step(db, dbStep{Op: "rotate"}, 0)
+			x.step(db, dbStep{Op: "barrier"}, 0)
+		}
+		ctl.holdPoint("compact.merged")
+		c := spawn(func() {
+			if _, err := db.VerifCompactOnce(); err != nil {
+				rec.emit(M{"t": "bgfail", "msg": "compaction failed: " + err.Error()})
+			}
+		})
+		if !ctl.await("compact.merged", 1, wait) {
+			rec.emit(M{"t": "note", "name": "window not reached: compact.merged"})
+			ctl.release("compact.merged")
+			<-c
+			return false
+		}
+		err := db.Open()
+		rec.emit(M{"t": "note", "name": fmt.Sprintf("second Open while compacting: %v", err)})
+		if err == nil {
+			rec.emit(M{"t": "bgfail", "msg": "Open on an open handle was accepted"})
+		}
+		ctl.release("compact.merged")
+		<-c
 	case "close-while-compacting":
 		// needs background compaction: the compactor is parked after its merge, Close runs until it waits for the compactor, and only
 		// then the compaction reflects its result (C19: whatever that reflect installs must be released by Close as well)
